@@ -27,6 +27,7 @@ mod c15x;
 mod c16;
 mod c17;
 mod c18;
+mod c19;
 mod c20;
 mod c07;
 mod c07s;
@@ -155,6 +156,7 @@ fn main() {
         "C16" => c16::run(&cfg),
         "C17" => c17::run(&cfg),
         "C18" => c18::run(&cfg),
+        "C19" => c19::run(&cfg),
         "C20" => c20::run(&cfg),
         "C06" => c06::run(&cfg),
         _ => {
